@@ -18,6 +18,10 @@ structure St where
   -- the source runner's own watermarker (`&wmark.Watermarker{}`: no allowed lateness), driven through `sendOperatorEvent`
   rw : Wm.Watermarker := Wm.Watermarker.new 0
   rmaxSeen : Int := Wm.zeroTime
+  -- the runner's event loop: the output stream so far, the batch size, how much the operator has been shown
+  loopEvs : List Wm.REv := []
+  loopN : Nat := 1
+  loopShown : Nat := 0
   ids : List String := []
   msgs : List (String × Int) := []
 
@@ -31,7 +35,8 @@ def initSt (hdr : List String) : St :=
     let store := Store.new [] (natOr kgc) 0 (natOr kgc) 1073741824
     -- `NewEventBatcher`: `MaxSize == 0` means 1
     let mb := if natOr maxBatch = 0 then 1 else natOr maxBatch
-    { w := Wm.Watermarker.new (intOr lat), op := ⟨Registry.new store ids, [], mb⟩, lat := intOr lat, ids := ids }
+    { w := Wm.Watermarker.new (intOr lat), op := ⟨Registry.new store ids, [], mb⟩, lat := intOr lat, ids := ids,
+      loopN := natOr maxBatch }
   | _ => {}
 
 def showEv : HEv → String
@@ -60,7 +65,27 @@ def specComposite (ids : List String) (msgs : List (String × Int)) : Int :=
 /-- every request of the step must carry the composite -/
 def retold (c : Int) (rs : List Req) : List Req := rs.map fun r => { r with told := c }
 
+def showSEv : Wm.SEv → String
+  | .ev t => s!"k{t}"
+  | .wm v => s!"w{v}"
+
+/-- the property's own reading of a delivered stream: each watermark = largest event before it − 1 (the runner's
+watermarker has no allowed lateness) -/
+def respec (m : Int) : List Wm.SEv → List Wm.SEv
+  | [] => []
+  | .ev t :: s => .ev t :: respec (if t > m then t else m) s
+  | .wm _ :: s => .wm (m - 1) :: respec m s
+
+/-- one raw event of a read: `-` = keyed to nothing, `a+b` = keyed to events with these timestamps -/
+def parseRaw (s : String) : Wm.REv := .events (if s == "-" then [] else (s.splitOn "+").map intOr)
+
 def step (st : St) : List String → St × String
+  | "lread" :: raws => ({ st with loopEvs := st.loopEvs ++ raws.map parseRaw }, "ok")
+  | ["ltick"] => ({ st with loopEvs := st.loopEvs ++ [.tick] }, "ok")
+  | ["ldrain"] =>
+    let d := Wm.delivered st.loopN (Wm.Watermarker.new 0) st.loopEvs
+    let line (l : List Wm.SEv) := if (l.drop st.loopShown).isEmpty then "-" else joinWith "," ((l.drop st.loopShown).map showSEv)
+    ({ st with loopShown := d.length }, withSpec (line d) (line (respec Wm.zeroTime d)))
   | "evs" :: ts =>
     ({ st with w := (Wm.runnerStep st.w (.events (ts.map intOr))).1,
                maxSeen := (ts.map intOr).foldl (fun m x => if x > m then x else m) st.maxSeen }, "ok")
